@@ -34,9 +34,20 @@ def case(draw, tier="quick"):
         spec["cell"] = (np.array(spec["cell"]) @ R.T).tolist()
         spec["pos"] = (np.array(spec["pos"]).reshape(-1, 3) @ R.T).tolist()
     big = len(spec["pos"]) > 60
+    # the length unit is the caller's: Angstrom mostly, sometimes metres (LAMMPS "units si"), centimetres or picometres
+    unit = draw(st.sampled_from([1.0] * 7 + [1e-10, 1e-8, 100.0]))
+    if unit != 1.0:
+        spec["cell"] = (np.array(spec["cell"]) * unit).tolist()
+        spec["pos"] = (np.array(spec["pos"]).reshape(-1, 3) * unit).tolist()
     r = draw(st.sampled_from([[2, 1, 1], [1, 2, 1], [1, 1, 2]])) if big else draw(st.sampled_from([[1, 1, 1], [2, 1, 1], [1, 2, 1], [1, 1, 2], [2, 1, 3], [1, 3, 2], [3, 2, 1], [2, 2, 2], [2, 3, 1],
                               [1, 2, 2], [3, 1, 1], [1, 1, 3], [2, 2, 1]]))
-    c = {"spec": spec, "r": r, "cell_kind": ck, "rtype": draw(st.sampled_from(["tuple", "list", "array"]))}
+    c = {"spec": spec, "r": r, "cell_kind": ck, "rtype": draw(st.sampled_from(["tuple", "list", "array"])), "unit": unit}
+    if not big and draw(hperm.integers(0, 9)) == 0:
+        # every atom on one lattice point -(i, j, k) (a single ion, a core/shell pair): one image lands exactly on the origin
+        img = [draw(hperm.integers(0, max(0, x - 1))) for x in r]
+        p0 = (-(np.array(img, float) @ np.array(spec["cell"], float))).tolist()
+        spec["pos"] = [list(p0) for _ in spec["pos"]]
+        c["on_lattice_point"] = img
     if draw(hperm.integers(0, 3)) == 0:
         # history on one object: replicate, edit public arrays directly, replicate again with the same factors
         n = len(spec["pos"])
@@ -71,10 +82,10 @@ def check_one(spec, r, rtype, stats):
         raise Violation("atom-count", "%s of %d atoms gives %d" % (what, N, len(got["atoms"])))
     cell = np.array(spec["cell"], float)
     wcell = np.array(want["cell"])
-    if np.abs(np.array(got["cell"]) - wcell).max() > 1e-9 * max(1.0, np.abs(wcell).max()):
+    if np.abs(np.array(got["cell"]) - wcell).max() > 1e-9 * np.abs(wcell).max():
         raise Violation("cell", "%s of cell %r gives cell %r, expected rows a*A, b*B, c*C = %r" % (what, cell.tolist(), got["cell"], want["cell"]))
     # identify every result atom as (tag, image)
-    scale = max(1.0, np.abs(wcell).max())
+    scale = max(np.abs(wcell).max(), np.abs(np.array(spec["pos"], float)).max() if len(spec["pos"]) else 0.0)
     index = {}
     for w in want["atoms"]:
         index.setdefault(w["tag"][0], []).append(w)
@@ -171,13 +182,14 @@ def history_check(c, stats):
     want = M.m_replicate(m2, list(rep))
     got = M.resolve(sup, "second replicate%r after editing the object (%s)" % (rep, e["how"]))
     cell = np.array(spec["cell"])
-    key = lambda r: (r["charge"], tuple(np.round(np.array(r["pos"]), 6)))
+    scale = max(np.abs(cell).max() * max(rep), np.abs(np.array(spec2["pos"], float)).max())
+    key = lambda r: (r["charge"], tuple(np.round(np.array(r["pos"]) / scale, 7)))
     gs = sorted(got["atoms"], key=key)
     ws = sorted(want["atoms"], key=key)
     if len(gs) != len(ws):
         raise Violation("atom-count", "second replicate after edit: %d atoms, expected %d" % (len(gs), len(ws)))
     for g, w in zip(gs, ws):
-        if abs(g["charge"] - w["charge"]) > 1e-12 or max(abs(x - y) for x, y in zip(g["pos"], w["pos"])) > 1e-8 or g["label"] != w["label"]:
+        if abs(g["charge"] - w["charge"]) > 1e-12 or max(abs(x - y) for x, y in zip(g["pos"], w["pos"])) > 1e-8 * scale or g["label"] != w["label"]:
             raise Violation("stale-result-after-edit", "replicate%r called again after editing charges / positions / types of the "
                             "same object (%s) returns an atom (charge %r, label %r, at %r) where the edited structure has (charge "
                             "%r, label %r, at %r)" % (rep, e["how"], g["charge"], g["label"], g["pos"], w["charge"], w["label"], w["pos"]))
@@ -194,7 +206,10 @@ def oracle(c, stats):
             stats.evaluations += 1
     m = check_one(spec, c["r"], c["rtype"], stats)
     cell = np.array(spec["cell"])
-    tilted = bool(np.abs(cell - np.diag(np.diag(cell))).max() > 1e-9)
+    tilted = bool(np.abs(cell - np.diag(np.diag(cell))).max() > 1e-9 * np.abs(cell).max())
+    stats.count("length-unit:%g" % c.get("unit", 1.0))
+    if c.get("on_lattice_point"):
+        stats.count("all-atoms-on-a-lattice-point")
     nterms = sum(len(spec[k + "s"]) for k in M.KINDS)
     stats.count("cell:%s" % ("rotated" if c["cell_kind"] == "rotated" else "tilted" if tilted else "ortho"))
     stats.count("factors:%s" % ("111" if c["r"] == [1, 1, 1] else "equal" if len(set(c["r"])) == 1 else "unequal"))
